@@ -340,3 +340,12 @@ Print Assumptions C03_write_total.
 Theorem C03_write_empty : forall d, td_items d = [] <-> write_ttml d = Err ENothingToWrite.
 Proof. exact write_ttml_empty. Qed.
 Print Assumptions C03_write_empty.
+
+(* ---- the model's literals are the constants of the Go source (Proofs/ConstTie.v, Gen/Consts.v regenerated from the
+   repository on every run by tools/genconsts): every TTML keyword, separator, tag and name the model spells out equals the
+   package-level constant, struct tag or bidirectional-map entry of the source, or occurs among the string literals of
+   the function the model transcribes.  A closed boolean computed by the kernel. ---- *)
+From Astisub Require Proofs.ConstTie.
+Theorem C03_constants_from_source : ConstTie.all ConstTie.TtmlTie.ties = true.
+Proof. exact ConstTie.TtmlTie.consts_from_source. Qed.
+Print Assumptions C03_constants_from_source.
